@@ -449,6 +449,8 @@ class _FInterp(Interp):
             entered, leave = v, v._close
         elif not isinstance(v, (Rec, Func, ClassRef, tuple)) and type(v).__module__ in ("_thread", "threading") and hasattr(v, "__enter__"):
             entered, leave = v.__enter__(), (lambda: v.__exit__(None, None, None))
+        elif i == 0 and len(st.items) == 1:
+            return Interp.with_(self, st, 0, env, mod, depth)  # repository @contextmanager generators, __enter__/__exit__ records (pyint core)
         else:
             raise AnalysisError(f"flowio: with-statement not modelled: {norm(item.context_expr)[:80]}")
         if item.optional_vars is not None:
